@@ -29,6 +29,11 @@ class Origins:
 
     def name(self, local):
         n = self.body["locals"][local].get("name")
+        if n is None:
+            return None
+        same = [i for i, l in enumerate(self.body["locals"]) if l.get("name") == n]
+        if len(same) > 1:
+            return "%s#%d" % (n, same.index(local))
         return n
 
     def local_term(self, local, depth=0):
@@ -49,6 +54,25 @@ class Origins:
             fn = f["path"] if f.get("k") == "fndef" else "fnptr"
             return "%s(%s)" % (fn, ", ".join(self.op_term(a, depth + 1) for a in t["args"]))
         return self.rv_term(d[3], depth + 1)
+
+    def local_by_name(self, name):
+        for i in range(len(self.body["locals"])):
+            if self.name(i) == name:
+                return i
+        return None
+
+    def def_term(self, local):
+        """Term of the single definition of a (possibly mutated) variable, or None."""
+        ds = self.defs.get(local, [])
+        if len(ds) != 1:
+            return None
+        d = ds[0]
+        if d[0] == "call":
+            t = d[2]
+            f = t["func"]
+            fn = f["path"] if f.get("k") == "fndef" else "fnptr"
+            return "%s(%s)" % (fn, ", ".join(self.op_term(a, 1) for a in t["args"]))
+        return self.rv_term(d[3], 1)
 
     def place_term(self, place, depth=0):
         s = self._place_term(place, depth)
